@@ -365,6 +365,38 @@ func c06Scenario() *hist.Scenario {
 	}
 }
 
+// c06ContextScenario: callees whose analysis depends on the calling context (one fails on its own but is fine inside
+// a JS string; one is shared by a plain and a conditional-name call site, by the top level and an element without
+// content policy; one is recursive and ends in another context than it starts in).
+func c06ContextScenario() *hist.Scenario {
+	return &hist.Scenario{
+		Name:     "context-dependent-callee",
+		RootName: "root",
+		Init: `{{define "qa"}}<a href=x"y>{{end}}` +
+			`{{define "js"}}<script>var s = '{{template "qa"}}';</script>{{end}}` +
+			`{{define "tx"}}<p>{{template "qa"}}</p>{{end}}` +
+			`{{define "h"}}{{.S}}{{end}}` +
+			`{{define "plain"}}<img src="{{template "h" .}}">{{end}}` +
+			`{{define "cond"}}{{if .S}}<script{{else}}<img{{end}} src="{{template "h" .}}"></script>{{end}}` +
+			`{{define "top"}}{{template "h" .}}{{end}}` +
+			`{{define "svg"}}<svg>{{template "h" .}}</svg>{{end}}` +
+			`{{define "rh"}}{{.S}}{{if .N}}{{template "rh" .N}}{{end}}" title="{{.S}}{{end}}` +
+			`{{define "ra"}}<a href="{{template "rh" .}}">x</a>{{end}}` +
+			`{{define "rt"}}<a title="{{template "rh" .}}">x</a>{{end}}` +
+			`R{{template "top" .}}`,
+		Data: histData(),
+	}
+}
+
+func c06ContextAlphabet() []hist.Op {
+	var ops []hist.Op
+	for _, name := range []string{"qa", "js", "tx", "h", "plain", "cond", "top", "svg", "rh", "ra", "rt"} {
+		ops = append(ops, hist.Op{Kind: hist.Exec, H: 0, Form: 2, Name: name, Arg: 0})
+	}
+	ops = append(ops, hist.Op{Kind: hist.Exec, H: 0, Form: 0, Arg: 0}, hist.Op{Kind: hist.Exec, H: 0, Form: 2, Name: "ra", Arg: 1})
+	return ops
+}
+
 func c06Alphabet() []hist.Op {
 	var ops []hist.Op
 	for _, name := range []string{"h", "hh", "text", "title", "href", "hrefp", "hrefq", "rc", "tt", "rec", "u1", "u2", "broken", "broken2", "open"} {
@@ -458,7 +490,7 @@ func buildHistScenarios() {
 		sc := c05Scenario(k)
 		histScenarios[sc.Name] = sc
 	}
-	for _, sc := range []*hist.Scenario{c06Scenario(), c07Scenario(), c08Scenario()} {
+	for _, sc := range []*hist.Scenario{c06Scenario(), c06ContextScenario(), c07Scenario(), c08Scenario()} {
 		histScenarios[sc.Name] = sc
 	}
 	stale := c07Scenario()
@@ -537,7 +569,12 @@ func checkC06(r *core.Run) {
 	if r.Thorough() {
 		depth = 6
 	}
-	histRun(r, c06Clauses, []*hist.Scenario{c06Scenario()}, func(*hist.Scenario) []hist.Op { return c06Alphabet() }, depth, false)
+	histRun(r, c06Clauses, []*hist.Scenario{c06Scenario(), c06ContextScenario()}, func(sc *hist.Scenario) []hist.Op {
+		if sc.Name == "context-dependent-callee" {
+			return c06ContextAlphabet()
+		}
+		return c06Alphabet()
+	}, depth, false)
 	r.Sample(map[string]string{"scenario": "shared-helper", "history": renderOps(c06Alphabet()[2:5])})
 	r.Assume("expected value of every call = the same call on a freshly built set (no hand-written expectations)")
 }
